@@ -246,6 +246,254 @@ def gen_tables():
 
 
 # ------------------------------------------------------------------------------------------
+# C16: configuration -> behaviour tables (transport matches, startup paths, key-derivation calls)
+def _fn_body(rel, header_re, what):
+    """text of the item that starts at `header_re` up to the closing brace at the header's own indentation"""
+    s = src(rel)
+    m = re.search(header_re, s)
+    if not m:
+        raise AnchorMissing("%s: %s" % (rel, what))
+    line_start = s.rfind("\n", 0, m.start()) + 1
+    indent = re.match(r"[ \t]*", s[line_start:]).group(0)
+    e = re.search(r"\n%s\}" % indent, s[m.end():])
+    if not e:
+        raise AnchorMissing("%s: end of %s" % (rel, what))
+    return s[m.start():m.end() + e.end()]
+
+
+def _pat(p):
+    p = p.strip()
+    if p == "_" or re.fullmatch(r"[a-z_]\w*", p):
+        return "_"          # wildcard or a binding: matches both
+    if p == "None":
+        return "None"
+    if re.fullmatch(r"Some\([\w_]+\)", p):
+        return "Some"
+    raise AnchorMissing("unsupported Option pattern %r in a transport match" % p)
+
+
+def _strlist(xs):
+    return "[" + "; ".join(coq_string(x) for x in xs) + "]"
+
+
+def gen_config():
+    L = []
+    facts = {}
+
+    def emit(name, ty, value, fact, origin):
+        facts[name] = fact
+        L.append("Definition %s : %s := %s.  (* %s *)" % (name, ty, value, origin))
+
+    # --- every serde name of CipherKind, INCLUDING the names of the default variant ---
+    f = "octo-squirrel/src/codec/aead.rs"
+    ck = enum_serde_names(f, "CipherKind")
+    m = re.search(r"#\[default\]\s*(\w+)\s*,", _fn_body(f, r"pub enum CipherKind\s*\{", "enum CipherKind"))
+    if not m:
+        raise AnchorMissing(f + ": #[default] variant of CipherKind")
+    emit("cipher_default_variant", "string", coq_string(m.group(1)), m.group(1), f + " #[default]")
+    rows = [(nm, var) for var, names in ck for nm in names]
+    emit("cipher_names_all", "list (string * string)",
+         "[ " + ";\n    ".join("(%s, %s)" % (coq_string(a), coq_string(b)) for a, b in rows) + " ]", rows, f + " serde names, default variant included")
+    find("octo-squirrel/src/config.rs", r"#\[serde\(default\)\]\s*pub cipher: CipherKind", what="ServerConfig.cipher is #[serde(default)]")
+    find("octo-squirrel/src/config.rs", r"#\[serde\(default\)\]\s*pub mode: Mode", what="ServerConfig.mode is #[serde(default)]")
+    m = find("octo-squirrel/src/config.rs", r"impl Default for Mode \{\s*fn default\(\) -> Self \{\s*Self::(\w+)", what="Mode::default")
+    emit("mode_default_variant", "string", coq_string(m.group(1)), m.group(1), "config.rs Mode::default")
+
+    # --- kind -> AEAD algorithm (CipherMethod::new) and the tag-size dispatch (kind_match_aead!) ---
+    body = _fn_body(f, r"pub fn new\(kind: CipherKind, key: &\[u8\]\) -> Self \{", "CipherMethod::new")
+    arms = re.findall(r"((?:\|?\s*CipherKind::\w+\s*)+)=>\s*\{[^{}]*?Self::(\w+)\(", body, re.S)
+    if not arms:
+        raise AnchorMissing(f + ": CipherMethod::new arms")
+    rows = [(k, algo) for ks, algo in arms for k in re.findall(r"CipherKind::(\w+)", ks)]
+    mu = re.search(r"CipherKind::(\w+)\s*=>\s*panic!", body)
+    emit("kind_algo", "list (string * string)", "[" + "; ".join("(%s, %s)" % (coq_string(a), coq_string(b)) for a, b in rows) + "]", rows, f + " CipherMethod::new")
+    emit("kind_algo_panics", "list string", _strlist([mu.group(1)] if mu else []), [mu.group(1)] if mu else [], f + " CipherMethod::new panic arm")
+    body = _fn_body(f, r"macro_rules! kind_match_aead \{", "kind_match_aead!")
+    arms = re.findall(r"((?:\|?\s*Self::\w+\s*)+)=>\s*<(\w+) as \$trait>", body)
+    if not arms:
+        raise AnchorMissing(f + ": kind_match_aead! arms")
+    rows = [(k, algo) for ks, algo in arms for k in re.findall(r"Self::(\w+)", ks)]
+    emit("kind_tag_algo", "list (string * string)", "[" + "; ".join("(%s, %s)" % (coq_string(a), coq_string(b)) for a, b in rows) + "]", rows, f + " kind_match_aead!")
+    mu = re.search(r"Self::(\w+)\s*=>\s*panic!", body)
+    emit("kind_tag_panics", "list string", _strlist([mu.group(1)] if mu else []), [mu.group(1)] if mu else [], f + " kind_match_aead! panic arm")
+
+    # --- client: match (protocol, ssl, ws, quic) of transfer_udp ---
+    f = "octo-squirrel-client/src/client.rs"
+    body = _fn_body(f, r"async fn transfer_udp\(", "transfer_udp")
+    if not re.search(r"match \(current\.protocol, &current\.ssl, &current\.ws, &current\.quic\) \{", body):
+        raise AnchorMissing(f + ": match (current.protocol, &current.ssl, &current.ws, &current.quic)")
+    heads = list(re.finditer(r"\n        \((\w+), ([^,()]+|Some\(\w+\)), ([^,()]+|Some\(\w+\)), ([^,()]+|Some\(\w+\))\) => ", body))
+    if len(heads) < 3:
+        raise AnchorMissing(f + ": arms of the transport match in transfer_udp")
+    rows = []
+    for i, h in enumerate(heads):
+        seg = body[h.end():heads[i + 1].start() if i + 1 < len(heads) else len(body)]
+        outs = sorted(set(re.findall(r"\b(new_\w+_outbound)\b", seg)))
+        if len(outs) != 1:
+            raise AnchorMissing(f + ": transfer_udp arm %s must name exactly one new_*_outbound, found %r" % (h.group(0).strip(), outs))
+        rows.append((h.group(1), _pat(h.group(2)), _pat(h.group(3)), _pat(h.group(4)), outs[0]))
+    emit("client_udp_table", "list (string * string * string * string * string)",
+         "[ " + ";\n    ".join("(%s)" % ", ".join(coq_string(x) for x in r) for r in rows) + " ]", rows, f + " transfer_udp")
+    # the same function: key-size dispatch on UDP and what an absent cipher does
+    m = re.search(r"CipherKind::Unknown => \{\s*(\w+)!\(\"([^\"]+)\"\);\s*Ok\(\(\)\)", body)
+    if not m:
+        raise AnchorMissing(f + ": transfer_udp CipherKind::Unknown arm")
+    emit("client_udp_unknown", "string * string", "(%s, %s)" % (coq_string(m.group(1)), coq_string(m.group(2))), [m.group(1), m.group(2)], f)
+    body_t = _fn_body(f, r"async fn transfer_tcp\(", "transfer_tcp")
+    m = re.search(r"CipherKind::Unknown => (\w+)!\(\"([^\"]+)\"\)", body_t)
+    if not m:
+        raise AnchorMissing(f + ": transfer_tcp CipherKind::Unknown arm")
+    emit("client_tcp_unknown", "string * string", "(%s, %s)" % (coq_string(m.group(1)), coq_string(m.group(2))), [m.group(1), m.group(2)], f)
+    def udp_dispatch(seg):
+        m16 = re.search(r"((?:\s*\|?\s*CipherKind::\w+)+)\s*=>\s*\{[^{}]*?<16>", seg, re.S)
+        m32 = re.search(r"((?:\s*\|?\s*CipherKind::\w+)+)\s*=>\s*\{[^{}]*?<32>", seg, re.S)
+        if not m16 or not m32:
+            raise AnchorMissing(f + ": transfer_udp key-size dispatch arms")
+        g = lambda m: re.findall(r"CipherKind::(\w+)", m.group(1))
+        return g(m16), g(m32)
+    u16, u32 = udp_dispatch(body)
+    emit("client_udp_n16", "list string", _strlist(u16), u16, f + " transfer_udp <16>")
+    emit("client_udp_n32", "list string", _strlist(u32), u32, f + " transfer_udp <32>")
+    # protocols of transfer_tcp that go through the cipher match (the others ignore `cipher`... see vmess below)
+    protos = re.findall(r"\n        (\w+) => ", body_t)
+    emit("client_tcp_protocol_arms", "list string", _strlist(protos), protos, f + " transfer_tcp")
+
+    # --- client main: which predicate guards which bind ---
+    body = _fn_body(f, r"pub async fn main\(\)", "client main")
+    guards = re.findall(r"if config\.mode\.(enable_\w+)\(\) \{\s*let \w+ = (UdpSocket|TcpListener)::bind\(listen_addr\)", body)
+    if sorted(g[1] for g in guards) != ["TcpListener", "UdpSocket"]:
+        raise AnchorMissing(f + ": main must bind one UdpSocket and one TcpListener, each under `if config.mode.enable_*()`; found %r" % (guards,))
+    emit("client_main_guards", "list (string * string)", "[" + "; ".join("(%s, %s)" % (coq_string(b), coq_string(a)) for a, b in guards) + "]",
+         [(b, a) for a, b in guards], f + " main")
+    keeps = bool(re.search(r"if let Some\(udp_task\) = udp_task \{\s*udp_task\.await", body))
+    emit("client_main_awaits_udp_task", "bool", "true" if keeps else "false", keeps, f + " main")
+
+    # --- client template: match (ssl, ws, quic) of try_transfer_tcp ---
+    f = "octo-squirrel-client/src/client/template.rs"
+    body = _fn_body(f, r"pub async fn try_transfer_tcp<", "try_transfer_tcp")
+    if not re.search(r"match \(&config\.ssl, &config\.ws, &config\.quic\) \{", body):
+        raise AnchorMissing(f + ": match (&config.ssl, &config.ws, &config.quic)")
+    heads = list(re.finditer(r"\n        \(([^,()]+|Some\(\w+\)), ([^,()]+|Some\(\w+\)), ([^,()]+|Some\(\w+\))\) => \{", body))
+    if len(heads) < 2:
+        raise AnchorMissing(f + ": arms of the transport match in try_transfer_tcp")
+    rows = []
+    for i, h in enumerate(heads):
+        seg = body[h.end():heads[i + 1].start() if i + 1 < len(heads) else len(body)]
+        outs = sorted(set(re.findall(r"\b(new_\w+_outbound)\b", seg)))
+        if len(outs) != 1:
+            raise AnchorMissing(f + ": try_transfer_tcp arm must name exactly one new_*_outbound, found %r" % (outs,))
+        rows.append((_pat(h.group(1)), _pat(h.group(2)), _pat(h.group(3)), outs[0]))
+    emit("client_tcp_table", "list (string * string * string * string)",
+         "[ " + ";\n    ".join("(%s)" % ", ".join(coq_string(x) for x in r) for r in rows) + " ]", rows, f + " try_transfer_tcp")
+
+    # --- server: startup per protocol, startup_tcp (ssl, ws) arms, startup_quic guard ---
+    f = "octo-squirrel-server/src/server.rs"
+    body = _fn_body(f, r"async fn startup\(config: ServerConfig<SslConfig>\)", "server startup")
+    heads = list(re.finditer(r"\n        Protocol::(\w+) => ", body))
+    if not heads:
+        raise AnchorMissing(f + ": startup protocol arms")
+    rows = []
+    for i, h in enumerate(heads):
+        seg = body[h.end():heads[i + 1].start() if i + 1 < len(heads) else len(body)]
+        calls = re.findall(r"\b((?:\w+::)?startup(?:_\w+)?)\(", seg)
+        if not calls:
+            raise AnchorMissing(f + ": startup arm %s calls no startup function" % h.group(1))
+        rows.append((h.group(1), calls))
+    emit("server_startup", "list (string * list string)", "[" + "; ".join("(%s, %s)" % (coq_string(p), _strlist(c)) for p, c in rows) + "]", rows, f + " startup")
+    body = _fn_body(f, r"async fn startup_tcp<", "server startup_tcp")
+    if not re.search(r"let listener = TcpListener::bind\(", body.split("match (&config.ssl, &config.ws)")[0]):
+        raise AnchorMissing(f + ": startup_tcp binds unconditionally before the transport match")
+    heads = list(re.finditer(r"\n        \((None|Some\(\w+\)), (\w+)\) => ", body))
+    if len(heads) != 2:
+        raise AnchorMissing(f + ": startup_tcp must have exactly the arms (None, ws) and (Some(ssl), ws)")
+    rows = []
+    for i, h in enumerate(heads):
+        seg = body[h.end():heads[i + 1].start() if i + 1 < len(heads) else len(body)]
+        tls = "TlsAcceptor" in seg
+        ws = bool(re.search(r"%s\.is_some\(\)" % re.escape(h.group(2)), seg)) and "accept_websocket_then_replay" in seg and "template::tcp::relay" in seg
+        rows.append((_pat(h.group(1)), tls, ws))
+    emit("server_tcp_table", "list (string * bool * bool)",
+         "[" + "; ".join("(%s, %s, %s)" % (coq_string(a), "true" if b else "false", "true" if c else "false") for a, b, c in rows) + "]", rows,
+         f + " startup_tcp: ssl pattern, TLS acceptor used, websocket exactly when the ws section is present")
+    body = _fn_body(f, r"async fn startup_quic<", "server startup_quic")
+    m = re.search(r"\{\s*if let Some\(\w+\) = &config\.quic \{.*\n    \}\n    Ok\(\(\)\)\n\}\Z", body, re.S)
+    emit("server_quic_needs_section", "bool", "true" if m else "false", bool(m), f + " startup_quic: `if let Some(..) = &config.quic {..} Ok(())`")
+    if not m:
+        raise AnchorMissing(f + ": startup_quic is no longer `if let Some(..) = &config.quic { .. } Ok(())`")
+
+    # --- shadowsocks server: mode tests ---
+    f = "octo-squirrel-server/src/server/shadowsocks.rs"
+    body = _fn_body(f, r"pub async fn startup\(", "shadowsocks startup")
+    joined = re.findall(r"tokio::join!\(\s*(startup_\w+)::<\d+>\([^)]*\),\s*(startup_\w+)::<\d+>\([^)]*\)\)", body)
+    if len(joined) != 2 or joined[0] != joined[1]:
+        raise AnchorMissing(f + ": both key-size arms must join the same two startup functions; found %r" % (joined,))
+    emit("ss_server_joined", "list string", _strlist(list(joined[0])), list(joined[0]), f + " startup")
+    m = re.search(r"CipherKind::Unknown => (\w+)!\(\"([^\"]+)\"\)", body)
+    if not m:
+        raise AnchorMissing(f + ": startup CipherKind::Unknown arm")
+    emit("ss_server_unknown", "string * string", "(%s, %s)" % (coq_string(m.group(1)), coq_string(m.group(2))), [m.group(1), m.group(2)], f)
+    body = _fn_body(f, r"async fn startup_tcp<", "shadowsocks startup_tcp")
+    m = re.search(r"\{\s*if ((?:!config\.mode\.enable_\w+\(\)(?: && )?)+) \{\s*return Ok\(\(\)\);\s*\}(.*)\Z", body, re.S)
+    if not m or "super::startup_tcp(" not in m.group(2):
+        raise AnchorMissing(f + ": startup_tcp early return on the mode")
+    g = re.findall(r"!config\.mode\.(enable_\w+)\(\)", m.group(1))
+    emit("ss_server_tcp_guard", "list string", _strlist(g), g, f + " startup_tcp returns early unless one of these holds")
+    body = _fn_body(f, r"async fn startup_udp<", "shadowsocks startup_udp")
+    m = re.search(r"\{\s*if ((?:!config\.mode\.enable_\w+\(\)(?: && )?)+) \{\s*return Ok\(\(\)\);\s*\}\s*if config\.mode\.(enable_\w+)\(\) \{(.*)\n    \} else \{(.*)\n    \}\n\}\Z", body, re.S)
+    if not m:
+        raise AnchorMissing(f + ": startup_udp shape `if !a && !b {return} if udp {..} else {..}`")
+    g = re.findall(r"!config\.mode\.(enable_\w+)\(\)", m.group(1))
+    emit("ss_server_udp_guard", "list string", _strlist(g), g, f + " startup_udp returns early unless one of these holds")
+    if "UdpSocket::bind(" not in m.group(3) or "super::startup_quic(" not in m.group(4):
+        raise AnchorMissing(f + ": startup_udp branches (UdpSocket::bind | super::startup_quic)")
+    emit("ss_server_udp_branch", "string * string * string", "(%s, %s, %s)" % (coq_string(m.group(2)), coq_string("UdpSocket"), coq_string("startup_quic")),
+         [m.group(2), "UdpSocket", "startup_quic"], f + " startup_udp: `if mode.<1>() { <2>::bind } else { <3> }`")
+
+    # --- which function turns the configured password into the key, on each path ---
+    def key_path(rel, header_re, what):
+        body = _fn_body(rel, header_re, what)
+        m = re.search(r"if [\w\.]+\.is_aead_2022\(\) \{\s*(?:\w+::)*(\w+)\(&\w+\.password\)[^{}]*\} else \{(.*?)\n\s*\};", body, re.S)
+        if not m:
+            raise AnchorMissing("%s: %s: `if kind.is_aead_2022() { f(&x.password) } else { .. }`" % (rel, what))
+        m2 = re.search(r"(?:\w+::)*(\w+)\(\w+\.password\.as_bytes\(\)\)", m.group(2))
+        if not m2:
+            raise AnchorMissing("%s: %s: legacy branch g(x.password.as_bytes())" % (rel, what))
+        return m.group(1), m2.group(1)
+    rows = []
+    for side, net, rel, hre in [
+        ("client", "tcp", "octo-squirrel-client/src/client/shadowsocks.rs", r"fn try_from\(value: &ServerConfig<SslConfig>\)"),
+        ("client", "udp", "octo-squirrel-client/src/client/shadowsocks.rs", r"pub fn new_static\("),
+        ("server", "tcp", "octo-squirrel-server/src/server/shadowsocks.rs", r"pub fn init\(config: &ServerConfig<SslConfig>"),
+        ("server", "udp", "octo-squirrel-server/src/server/shadowsocks.rs", r"async fn startup_udp<"),
+    ]:
+        a, b = key_path(rel, hre, side + " " + net + " key derivation")
+        rows.append((side, net, a, b))
+    emit("key_paths", "list (string * string * string * string)",
+         "[ " + ";\n    ".join("(%s)" % ", ".join(coq_string(x) for x in r) for r in rows) + " ]", rows, "side, net, function for 2022 kinds, function for legacy kinds")
+    # config_password_to_keys: the length test
+    f = "octo-squirrel/src/protocol/shadowsocks.rs"
+    body = _fn_body(f, r"pub fn config_password_to_keys<const N: usize>", "config_password_to_keys")
+    m = re.search(r"for s in password\.split\('(.)'\) \{\s*if Base64::decode_vec\(s\)\?\.len\(\) (!=|<|>) N \{\s*return Err\(", body)
+    if not m or "password_to_keys(password)" not in body:
+        raise AnchorMissing(f + ": config_password_to_keys: `for s in password.split(':') { if Base64::decode_vec(s)?.len() != N { return Err` ")
+    emit("config_keys_separator", "string", coq_string(m.group(1)), m.group(1), f)
+    emit("config_keys_length_test", "string", coq_string(m.group(2)), m.group(2), f + " a key is refused when `len <this> N`")
+
+    # --- vmess client: how the configured cipher selects the body security ---
+    f = "octo-squirrel-client/src/client/vmess.rs"
+    ms = re.findall(r"let security = if (?:\w+\.)?(?:kind|cipher) == CipherKind::(\w+) \{ SecurityType::(\w+) \} else \{ SecurityType::(\w+) \};", src(f))
+    if len(ms) != 2:
+        raise AnchorMissing(f + ": two `let security = if <cipher> == CipherKind::X { SecurityType::A } else { SecurityType::B }` (tcp, udp); found %d" % len(ms))
+    rows = [("tcp",) + ms[0], ("udp",) + ms[1]]
+    emit("vmess_client_security", "list (string * string * string * string)",
+         "[" + "; ".join("(%s)" % ", ".join(coq_string(x) for x in r) for r in rows) + "]", rows, f + " net, the one kind compared, security then, security otherwise")
+
+    header = ("(* GENERATED by tools/gen_from_source.py from /repo's working tree -- do not edit. *)\n"
+              "From Coq Require Import String List.\nImport ListNotations.\nOpen Scope string_scope.\n\n")
+    return header + "\n".join(L) + "\n", facts
+
+
+# ------------------------------------------------------------------------------------------
 SHARED_PATTERNS = [
     ("static", r"^\s*(?:pub\s+)?static\s+(?:mut\s+)?(\w+)"),
     ("mutex_new", r"Mutex::new\("),
@@ -305,7 +553,7 @@ def write_if_changed(path, content):
 def main():
     facts = {}
     errors = []
-    for name, fn in [("Params", gen_params), ("Tables", gen_tables), ("Shared", gen_shared)]:
+    for name, fn in [("Params", gen_params), ("Tables", gen_tables), ("Shared", gen_shared), ("ConfigTables", gen_config)]:
         try:
             text, fc = fn()
             facts.update(fc)
